@@ -1,6 +1,6 @@
 (* C20  Function-table registry is total: unset methods fail cleanly, set ones delegate.
    Statements only; proofs live in Proofs/Funcs.v. *)
-From OCI Require Import Model.Funcs Proofs.Funcs.
+From OCI Require Import Model.Funcs Proofs.Funcs Model.FuncsRun Proofs.FuncsRun.
 
 (* No call on any table (all 2^18 field assignments, with or without the error
    constructor, nil receiver or not), any method, any arguments, panics. *)
@@ -40,3 +40,62 @@ Theorem C20_independent : forall t t' m args,
   call t m args = call t' m args.
 Proof. exact call_independent. Qed.
 Print Assumptions C20_independent.
+
+(* ---- the same over time: the context argument, re-traversal of the returned iterator, and
+   histories of calls on one table value (Model/FuncsRun.v) ---- *)
+
+(* With the context as an argument and the iterator as a value, a call still never panics. *)
+Theorem C20_invoke_no_panic : forall t m ctx args, invoke t m ctx args <> RPanic.
+Proof. exact invoke_no_panic. Qed.
+Print Assumptions C20_invoke_no_panic.
+
+(* The refined call, with the context and the iterator value forgotten, is the call of the five
+   theorems above: nothing they say is lost. *)
+Theorem C20_invoke_refines_call : forall t m ctx args, erase (invoke t m ctx args) = call t m args.
+Proof. exact erase_invoke. Qed.
+Print Assumptions C20_invoke_refines_call.
+
+(* The iterator an unset method returns makes exactly one yield, carrying the error, on every
+   traversal and whatever the consumer answers (it has no state to use up). *)
+Theorem C20_error_seq_every_traversal : forall e k, traverse_error_seq e k = [e].
+Proof. exact traverse_once. Qed.
+Print Assumptions C20_error_seq_every_traversal.
+
+(* In any history of calls on one table, a call of a method whose field is set is answered by
+   that field, called with the caller's own context and arguments, whatever was called before
+   or is called after. *)
+Theorem C20_history_delegates : forall t pre st post,
+  t_nil t = false -> t_set t (s_m st) = true ->
+  nth (List.length pre) (run t (pre ++ st :: post)) SPanic
+  = SDelegated (s_m st) (s_ctx st) (s_args st).
+Proof. exact run_delegates. Qed.
+Print Assumptions C20_history_delegates.
+
+(* In any history, a call of a method whose field is unset (or any call on the nil table) is
+   answered by the constructor's error for (this call's context, the method's name, its
+   repository argument), or else by the unsupported-operation error naming the method, whatever
+   the context is and whatever was called before; for an iterator method every one of the
+   caller's traversals is exactly one yield of that error. *)
+Theorem C20_history_unset_error : forall t pre st post,
+  (t_nil t = true \/ t_set t (s_m st) = false) ->
+  nth (List.length pre) (run t (pre ++ st :: post)) SPanic
+  = let e := if negb (t_nil t) && t_ctor t
+             then ECtorErr (s_ctx st) (method_name (s_m st)) (repo_arg (s_m st) (s_args st))
+             else EUnsup (method_name (s_m st)) in
+    if is_iter (s_m st) then SSeq (map (fun _ => [YErr e]) (s_trav st)) else SError e.
+Proof. exact run_unset. Qed.
+Print Assumptions C20_history_unset_error.
+
+(* No call of any history panics. *)
+Theorem C20_history_no_panic : forall t steps, ~ In SPanic (run t steps).
+Proof. exact run_no_panic. Qed.
+Print Assumptions C20_history_no_panic.
+
+(* A history is answered the same by two tables that agree on nil-ness, on the constructor and
+   on the fields of the methods the history calls: the other fields do not matter. *)
+Theorem C20_history_independent : forall t t' steps,
+  t_nil t = t_nil t' -> t_ctor t = t_ctor t' ->
+  (forall st, In st steps -> t_set t (s_m st) = t_set t' (s_m st)) ->
+  run t steps = run t' steps.
+Proof. exact run_independent. Qed.
+Print Assumptions C20_history_independent.
